@@ -29,6 +29,8 @@ MODEL_NMAX = {'quick': 512, 'thorough': 1024}   # the model's O(N^2) sum costs ~
 # independent references (no np.fft)
 # ------------------------------------------------------------------------------------------------
 
+PROP_MODULES = ['C06', 'C06Gen']
+
 def pad_to(x, N):
     xp = np.zeros(N, dtype=float)
     m = min(len(x), N)
